@@ -28,6 +28,9 @@ type ClassModel struct {
 
 	// methodList - stores all available methods definition of class
 	methodList map[string]*Function
+
+	// origin - the model this one was copied from (nil for an original)
+	origin *ClassModel
 }
 
 // NewClassModel - create new empty r.ClassRef
@@ -51,6 +54,10 @@ func NewClassModel(name string) *ClassModel {
 // methods (the tables are copied, their entries shared)
 func (cm *ClassModel) Copy() *ClassModel {
 	model := NewClassModel(cm.name)
+	model.origin = cm
+	if cm.origin != nil {
+		model.origin = cm.origin
+	}
 	model.constructor = cm.constructor
 	for name, prop := range cm.propList {
 		model.propList[name] = prop
